@@ -1,9 +1,65 @@
 import PyamgV.Driver.Util
-/-! Driver ops of extension task E17 (op names prefixed `ext_`). -/
+import PyamgV.Driver.C03
+import PyamgV.Driver.C08
+import PyamgV.Model.ExtSolvePath
+/-! Driver ops of extension task E17 (op names prefixed `ext_e17_`): the composed solve-path models
+of Model/ExtSolvePath.lean (theorems in Proofs/ExtSolvePath.lean), run on the hierarchy data of C03.
+
+`ext_e17_solve <cycle V|W|F> <cpl> <maxiter> <tol> <x0given> <hasRes> <hasCb> <retInfo> <A0> <m>
+   (<A> <P> <R> <Qpre> <Qpost>){m} <S> <x0> <b>`
+  = `SolvePath.solvePyM` (C01's `solvePy` on C03's `cycM`) with the exact residual test
+  `‖b − A0 x‖² < tol² ‖b‖²` (`‖b‖ = 0 ↦ 1`); the caller's list, when passed, holds one stale entry.
+  reply `x # info|_ # r0²,r1²,…|_ # cb1;cb2;…|- # flag` with flag = 1 iff the returned vector is C03's
+  `solveM` with the same test (theorem `solvePyM_x`); `none` if the model does not stop (maxiter = 0).
+`ext_e17_precond <the ten arguments of c08_plan> <A0> <m> levels… <S> <v>`
+  = `C08.plan tables` followed by `SolvePath.callPrecond` for every accelerator call of the plan;
+  reply `raise` or `pv|pv…` (`?` for a call whose cycle string is not V/W/F). -/
 namespace PyamgV.Drv.ExtE17
-open PyamgV PyamgV.Drv
+open PyamgV PyamgV.Drv PyamgV.C03 PyamgV.SolvePath
+
+def flag (s : String) : Bool := s = "1"
+
+def showVecs (l : List Vec) : String :=
+  if l.isEmpty then "-" else String.intercalate ";" (l.map C03.showVec)
 
 def handle : List String → Option String
+  | "ext_e17_solve" :: cs :: cpl :: mx :: tol :: x0g :: hres :: hcb :: ri :: a0 :: m :: rest => do
+    let c ← C03.cycOf cs
+    let (Ls, tl) ← C03.takeLevels (nat m) rest
+    match tl with
+    | [s, x0s, bs] =>
+      let S := C03.mat s
+      let A0 := C03.mat a0
+      let b := C03.vec bs
+      let x0 : Option Vec := if flag x0g then some (C03.vec x0s) else none
+      let resn := resSq A0 b
+      let below := belowSq (parseRat tol) (dot b b)
+      let res : Option (List Rat) := if flag hres then some [-1] else none
+      match solvePyM S c (nat cpl) Ls resn below (nat mx) b x0 res (flag hcb) (flag ri) with
+      | none => some "none"
+      | some p =>
+        let xm := solveM S c (nat cpl) Ls (fun y => below (resn y)) (nat mx) b (x0.getD (zeros b.length))
+        some (String.intercalate "#" [C03.showVec p.x,
+          (match p.info with | some i => toString i | none => "_"),
+          (match p.residuals with | some l => showRats l.toArray | none => "_"),
+          showVecs p.cb, C03.b01 (decide (p.x = xm))])
+    | _ => none
+  | "ext_e17_precond" :: cyc :: sym :: ss :: acc :: tol :: mx :: x0 :: cb :: res :: ri :: a0 :: m :: rest => do
+    let r ← C08.parseReq [cyc, sym, ss, acc, tol, mx, x0, cb, res, ri]
+    let (Ls, tl) ← C03.takeLevels (nat m) rest
+    match tl with
+    | [s, vs] =>
+      let S := C03.mat s
+      let A0 := C03.mat a0
+      let v := C03.vec vs
+      match PyamgV.C08.plan PyamgV.C08.tables r with
+      | .raise _ _ => some "raise"
+      | .run _ calls _ _ =>
+        some (String.intercalate "|" (calls.map fun cl =>
+          match callPrecond S Ls (resSq A0) (belowSq (1 / 1000000000000) 1) cl v with
+          | some y => C03.showVec y
+          | none => "?"))
+    | _ => none
   | _ => none
 
 end PyamgV.Drv.ExtE17
